@@ -66,8 +66,11 @@ def run(tier, seed):
         raise MachineryError(f"C04: {len(r.lines)} verdicts for {len(cases)} cases")
     lines = {l["case"]: l for l in r.lines}
     vio = []
+    inconclusive = 0
     for cid, l in lines.items():
-        if l["v"]["c04"] != "ok" and not l["v"]["c04"].endswith(("value-range", "unsupported-node")):
+        if "value-range" in l["v"]["c04"] or "unsupported-node" in l["v"]["c04"]:
+            inconclusive += 1  # outside the model's value box (big literals): says nothing about the kernel
+        elif l["v"]["c04"] != "ok":
             vio.append(_pipe.violation({**meta[cid], "v": l["v"]}, l["v"]["c04"], "machine", "C04"))
 
     # native history, validated as a trace
@@ -144,7 +147,7 @@ def run(tier, seed):
            "rule": "catalogue x seeded formats (kernels where assemble, compute, evaluate all generate) x seeded inputs; "
                    "history = evaluate; assemble; freeze; compute; re-value x3; compute; re-value 0; compute. "
                    "Non-trivial = evaluate's output stores a non-zero value.",
-           "samples": samples, "kernels": len(klist), "exhaustive": False}
+           "samples": samples, "kernels": len(klist), "inconclusive": inconclusive, "exhaustive": False}
     return {"violations": vio, "coverage": cov, "assumptions": _pipe.ASSUMPTIONS}
 
 
